@@ -265,6 +265,20 @@ Definition cmerge (cls : list (list N)) (a b : N) : list (list N) :=
 Definition uf_orbits (nodes : list N) (maps : list (list (N * N))) : list (list N) :=
   fold_left (fun cls m => fold_left (fun cls ph => cmerge cls (fst ph) (snd ph)) m cls) maps (map (fun v => [v]) nodes).
 
+(** * Decidable premises of the theorems (evaluated on every correspondence case): node ids distinct, one arc per
+      ordered pair, arcs join nodes; kinds are reaction / species; role is None / product / reactant, stoich None or >= 0 *)
+Fixpoint nodupb {A} (eqb : A -> A -> bool) (l : list A) : bool :=
+  match l with [] => true | x :: r => negb (existsb (eqb x) r) && nodupb eqb r end.
+Definition pairN_eqb (a b : N * N) : bool := N.eqb (fst a) (fst b) && N.eqb (snd a) (snd b).
+Definition wfb (g : vgraph) : bool :=
+  nodupb N.eqb (node_ids g) && nodupb pairN_eqb (map (fun e => (asrc e, adst e)) (varcs g))
+  && forallb (fun e => memN (asrc e) (node_ids g) && memN (adst e) (node_ids g)) (varcs g).
+Definition kinds_okb (g : vgraph) : bool :=
+  forallb (fun p => Z.eqb (snd p) KREACTION || Z.eqb (snd p) KSPECIES) (vnodes g).
+Definition arcs_okb (g : vgraph) : bool :=
+  forallb (fun e => (Z.eqb (fst (aattr e)) (-1) || Z.eqb (fst (aattr e)) 0 || Z.eqb (fst (aattr e)) 1)
+                    && Z.leb (-1) (snd (aattr e))) (varcs g).
+
 (** * Observable of one network / one case *)
 Definition tpart (P : partition) : tok := tlist (tlist tN) P.
 Definition node_tok (p : N * Z) : tok := L [tN (fst p); I (snd p)].
@@ -285,7 +299,8 @@ Definition run_net (bip st : bool) (n : net) : tok :=
           tnat (length (snd res)); tlist (tlist tN) (snd res);
           tset (tset tN) (orbits_from_perms (snd res));
           tset node_tok (vnodes cg); tset arc_tok (varcs cg);
-          tnat (length A); tset (tset tN) (uf_orbits (node_ids g) A) ]
+          tnat (length A); tset (tset tN) (uf_orbits (node_ids g) A);
+          tbool (wfb g && kinds_okb g && arcs_okb g) ]
   end.
 
 Definition run_case (bip st : bool) (nets : list net) : tok := tlist (run_net bip st) nets.
